@@ -893,6 +893,12 @@ class TermBuilder:
             return ("key", it[1][1], ("idx", lid, "items"))
         if it[0] == "param" and self.fn.node.args.kwarg is not None and self.fn.node.args.kwarg.arg == it[1] and not path:
             return ("key", it, ("idx", lid, "items"))
+        if it[0] == "comp" and it[1] in ("list", "gen") and isinstance(it[5], tuple) and (not it[5] or it[5][0] != "nested"):
+            # iterating a comprehension: the element is the comprehension's own element (for its own index)
+            t = it[2]
+            for p in path:
+                t = canon_item(t, p)
+            return t
         idx = ("idx", lid, "iter")
         t = canon_sub(it, idx)
         for p in path:
@@ -1299,7 +1305,11 @@ class TermBuilder:
                 env[nm.id] = self.loop_target(g.target, g.iter, path, at, env)
             it = self.term(g.iter, at, env)
             conds = tuple(self.term(c, at, env) for c in g.ifs)
-            gens.append((f"{g.target.lineno}:{g.target.col_offset}", it, conds))
+            if it[0] == "comp" and it[1] in ("list", "gen") and isinstance(it[5], tuple) and (not it[5] or it[5][0] != "nested"):
+                # [f(e) for e in [g(x) for x in S if c] if d]  is  [f(g(x)) for x in S if c and d]
+                gens.append((it[3], it[4], tuple(it[5]) + conds))
+            else:
+                gens.append((f"{g.target.lineno}:{g.target.col_offset}", it, conds))
         if isinstance(e, ast.DictComp):
             elt = ("tuple", (self.term(e.key, at, env), self.term(e.value, at, env)))
             kind = "dict"
